@@ -1,5 +1,5 @@
 package main
 
-func c11R3(c *Ctx, rule string)        {}
-func c11R5(c *Ctx, rule string)        {}
-func c11R6(c *Ctx, rule string)        {}
+func c11R3(c *Ctx, rule string) {}
+func c11R5(c *Ctx, rule string) {}
+func c11R6(c *Ctx, rule string) {}
